@@ -28,6 +28,9 @@ CFGV = [
     {"usage_rules": True, "c1_rules": "partial", "revocation": "c1-access-only"},
     {"usage_rules": False, "c1_rules": "partial", "revocation": None},
     {"usage_rules": False, "c1_rules": None, "revocation": "c1-access-only"},
+    # provider-wide rules whose authorization_code rule lacks refresh_token (the OIDC token helper wants to add it) and max_usage
+    {"usage_rules": "norefresh", "c1_rules": None, "revocation": None},
+    {"usage_rules": "norefresh", "c1_rules": "partial", "revocation": None},
 ]
 STATS = {"requests": 0, "static_roots": 0, "aliases": {}}
 
@@ -38,6 +41,9 @@ def make_runner(v, oidc=True, jwt=False):
     ctx = R.s.context
     if not cfg["usage_rules"]:
         ctx.authz.grant_config.pop("usage_rules", None)
+    elif cfg["usage_rules"] == "norefresh":
+        ctx.authz.grant_config["usage_rules"] = {"authorization_code": {"supports_minting": ["access_token", "id_token"], "expires_in": 300},
+                                                 "access_token": {"expires_in": 3600}, "refresh_token": {"supports_minting": ["access_token"], "expires_in": 86400}}
     if cfg["c1_rules"] == "full":
         ctx.cdb["client_1"]["token_usage_rules"] = {
             "authorization_code": {"supports_minting": ["access_token", "refresh_token", "id_token"], "max_usage": 1, "expires_in": 300},
@@ -136,7 +142,16 @@ def impl_tandem(c):
     rng = random.Random(c["seed"])
     cell = {"rt": "code", "rm": None, "am": c["am"], "atf": "jwt", "rtf": "opaque", "ialg": "RS256", "ienc": None, "ui": "json", "req": "par", "pkce": True}
     c12._pairs.clear()
-    pair = c12.pair_for(dict(cell, rt="code id_token"))       # registered for the hybrid type; code and id_token flows use req_args
+    orig_make = tandem.make_pair
+
+    def make_all_types(op_kwargs=None, rp_conf=None, op_post=None):
+        rp_conf = dict(rp_conf or {}, response_types_supported=["code id_token", "id_token", "code"])
+        return orig_make(op_kwargs=op_kwargs, rp_conf=rp_conf, op_post=op_post)
+    tandem.make_pair = make_all_types
+    try:
+        pair = c12.pair_for(dict(cell, rt="code id_token"))
+    finally:
+        tandem.make_pair = orig_make
     if pair[0] == "setup-failed":
         return {"nops": 0, "changes": [], "aliases": [], "probe_equal": True, "probe_diff": [], "hist": [], "setup": pair[1]}
     server, rp, log, files = pair
@@ -151,7 +166,9 @@ def impl_tandem(c):
     done = 0
     for i in range(c["n"]):
         STATS["requests"] += 1
-        args = {"scope": ["openid"] + rng.sample(["profile", "email", "offline_access"], rng.randint(0, 3)), "response_type": "code id_token"}
+        args = {"response_type": rng.choice(["code id_token", "code id_token", "id_token", "code"])}
+        if rng.random() < 0.5:           # otherwise the relying party uses its configured scope
+            args["scope"] = ["openid"] + rng.sample(["profile", "email", "offline_access"], rng.randint(0, 3))
         rm = rng.choice([None, None, "form_post", "fragment"])
         if rm:
             args["response_mode"] = rm
@@ -296,9 +313,9 @@ def compare(c, obs, outs):
     d = []
     roots = [ch["root"] for ch in obs["changes"]]
     if c["t"] == "batch":
-        got = "changed" if any(r.startswith("cdb.") and r.endswith("token_usage_rules") for r in roots) else "unchanged"
+        got = "changed" if any((r.startswith("cdb.") and r.endswith("token_usage_rules")) or r == "authz.grant_config" for r in roots) else "unchanged"
         if outs[0] != got:
-            d.append(f"client record token_usage_rules: model={outs[0]} implementation={got}")
+            d.append(f"client record token_usage_rules / authz.grant_config: model={outs[0]} implementation={got}")
         settings = [r for r in roots if r.startswith("endpoint.token_revocation.") or r.startswith("endpoint.userinfo.config")]
     elif c["t"] == "tandem":
         settings = [r for r in roots if ".c_param" in r or r.startswith("op:endpoint.token_revocation.") or r.startswith("op:endpoint.userinfo.config")]
